@@ -123,7 +123,16 @@ def main():
                         roots = [r for r in roots if not W.ignored(r, W.spec_of(patterns))]
                         check_generation(run, cid, root, S.new_manifests(root, before), patterns, fmts, roots)
     # ---- single file mode
+    # folders of identical layout, each a history of its own, below an enclosing history: files of DIFFERENT histories
+    # share their history-relative path (A001: Clips/clip.mov, A002: Clips/clip.mov, outer: Clips/clip.mov)
+    TREES = dict(S.TREES)
+    TREES["reels"] = {"A001/Clips/clip.mov": "reel one clip", "A001/Sidecar.txt": "reel one sidecar", "A002/Clips/clip.mov": "reel two clip",
+                      "A002/Sidecar.txt": "reel two sidecar", "Clips/clip.mov": "outer clip", "Sidecar.txt": "outer sidecar"}
     for tree, nested, sel in [
+        ("reels", ["A001", "A002"], ["A001", "A002"]),
+        ("reels", ["A001", "A002"], ["A002/Sidecar.txt", "Sidecar.txt", "A001/Sidecar.txt"]),
+        ("reels", ["A001"], ["Clips", "A001/Clips"]),
+        ("reels", ["A002"], ["A002/Clips/clip.mov", "Clips/clip.mov", "A001/Clips/clip.mov"]),
         ("deep", [], ["A/a.txt"]),
         ("deep", [], ["A"]),
         ("deep", ["A"], ["A/deep/x.bin"]),
@@ -148,7 +157,7 @@ def main():
                 continue
             tmp = os.path.join(run.tmp, f"w{run.evaluations}")
             root = os.path.join(tmp, "t")
-            W.build(root, S.TREES[tree])
+            W.build(root, TREES[tree])
             fmts = ["md5", "c4"]
             for nr in nested:
                 W.run("create", [os.path.join(root, nr)] + S.hargs(fmts))
